@@ -471,7 +471,7 @@ def pipeline(c):
     jobs = []
     for bi, b in enumerate(batches):
         name = "proxy_b%d_%d" % (bi, os.getpid())
-        exe = os.path.join(util.BUILD, "run", name, "verif-agent")
+        exe = os.path.join(util.RUNDIR, name, "verif-agent")
         steps, metas = [], []
         prev_conn = None
         for i, cs in b:
@@ -510,7 +510,7 @@ def pipeline(c):
         own = seq[0]["own"]
         uid = 0 if own["elevated"] else rnd.choice([1, 2, 65534])
         bi = si % nb
-        name, exe = jobs[bi][3], os.path.join(util.BUILD, "run", jobs[bi][3], "verif-agent")
+        name, exe = jobs[bi][3], os.path.join(util.RUNDIR, jobs[bi][3], "verif-agent")
         conn = "k%d" % si
         attr = None
         if own["has"]:
@@ -582,12 +582,16 @@ def replay_steps(c, prop, steps, meta, old_name=None):
     """re-execute one scenario and decide the property on the fresh observation; True = still violated"""
     name = "proxy_re_%s_%d" % (prop, os.getpid())
     meta = dict(meta)
-    old_exe = meta["caller"]["exe"]
+    new_exe = os.path.join(util.RUNDIR, name, "verif-agent")
     if old_name:
-        old_exe = os.path.join(util.BUILD, "run", old_name, "verif-agent")
-    new_exe = os.path.join(util.BUILD, "run", name, "verif-agent")
-    steps = json.loads(json.dumps(steps).replace(old_exe, new_exe))
-    meta = json.loads(json.dumps(meta).replace(old_exe, new_exe))
+        # (a cached pipeline run was made under another invocation's scratch directory)
+        pat = re.compile(r'[^"]*/run/[^"/]+/%s/verif-agent' % re.escape(old_name))
+        steps = json.loads(pat.sub(new_exe, json.dumps(steps)))
+        meta = json.loads(pat.sub(new_exe, json.dumps(meta)))
+    else:
+        old_exe = meta["caller"]["exe"]
+        steps = json.loads(json.dumps(steps).replace(old_exe, new_exe))
+        meta = json.loads(json.dumps(meta).replace(old_exe, new_exe))
     ev, d, _ = rig.run_rig({"steps": steps, "drain_ms": 300}, name, timeout=300)
     rows, _ = observe(ev, [meta])
     ok, why, _ = validate_trace(c, "ProxyTrace", write_cfg(prop, property_invariants(prop), "re"), rows,
